@@ -9,7 +9,7 @@ explicit whitespace `Text` and comments are items. It is what tree-sitter delive
                   | `(` items closeGap `)`            (comments and exactly one expression)
                   | expr (gap comment)* gap expr      (function application)
                   | (`with` | `assert`) (gap comment)* gap expr (gap comment)* gap `;` (gap comment)* gap expr
-                  | expr (gap comment)* gap `.` gap name (`.` name)*      (select, no `or` default)
+                  | expr (gap comment)* gap `.` gap name (`.` name)* [(gap comment)* gap `or` gap expr]      (select)
     list items    : (gap comment | gap expr)*
     set items     : (gap comment | gap binding)*
     binding       : name (gap comment)* gap `=` (gap comment)* gap expr (gap comment)* gap `;`
@@ -50,6 +50,8 @@ inductive Cst where
   /-- expression c1 g1 `.` gd a₁ `.` a₂ … — `select_expression` without `or` default; the attrpath holds
       no whitespace (`attrs`: its segments, separated by `.`) -/
   | sel (e : Cst) (c1 : GC) (g1 : Text) (gd : Text) (attrs : List Text)
+  /-- expression c1 g1 `.` gd attrpath c2 g2 `or` g3 default — `select_expression` with `or` default -/
+  | selOr (e : Cst) (c1 : GC) (g1 : Text) (gd : Text) (attrs : List Text) (c2 : GC) (g2 : Text) (g3 : Text) (d : Cst)
 inductive Items where
   | nil
   /-- gap, comment token -/
@@ -89,6 +91,8 @@ def Cst.flatten : Cst → Text
   | .kw w c1 g1 h c2 g2 c3 g3 b =>
     kwText w ++ flattenGC c1 ++ g1 ++ h.flatten ++ flattenGC c2 ++ g2 ++ ';' :: flattenGC c3 ++ g3 ++ b.flatten
   | .sel e c1 g1 gd attrs => e.flatten ++ flattenGC c1 ++ g1 ++ '.' :: gd ++ attrText attrs
+  | .selOr e c1 g1 gd attrs c2 g2 g3 d =>
+    e.flatten ++ flattenGC c1 ++ g1 ++ '.' :: gd ++ attrText attrs ++ flattenGC c2 ++ g2 ++ ['o', 'r'] ++ g3 ++ d.flatten
 def Items.flatten : Items → Text
   | .nil => []
   | .cmt g t rest => g ++ t ++ rest.flatten
@@ -139,6 +143,7 @@ def Cst.lex : Cst → List Lex
   | .app f cs _ a => f.lex ++ lexGC cs ++ a.lex
   | .kw w c1 _ h c2 _ c3 _ b => .tok (kwText w) :: lexGC c1 ++ h.lex ++ lexGC c2 ++ .tok [';'] :: lexGC c3 ++ b.lex
   | .sel e c1 _ _ attrs => e.lex ++ lexGC c1 ++ attrLex attrs
+  | .selOr e c1 _ _ attrs c2 _ _ d => e.lex ++ lexGC c1 ++ attrLex attrs ++ lexGC c2 ++ .tok ['o', 'r'] :: d.lex
 def Items.lex : Items → List Lex
   | .nil => []
   | .cmt _ t rest => .cmt t :: rest.lex
@@ -269,6 +274,9 @@ def Cst.wf : Cst → Bool
     c1.isEmpty && isGap g1 && h.wf && c2.isEmpty && isGap g2 && c3.isEmpty && isGap g3 && b.wf
   -- select: whitespace only between the expression and `.`, and between `.` and the attrpath
   | .sel e c1 g1 gd attrs => e.wf && c1.isEmpty && isGap g1 && isGap gd && !attrs.isEmpty && attrs.all attrSegOk
+  | .selOr e c1 g1 gd attrs c2 g2 g3 d =>
+    e.wf && c1.isEmpty && isGap g1 && isGap gd && !attrs.isEmpty && attrs.all attrSegOk && c2.isEmpty && isGap g2 &&
+      isGap g3 && d.wf
 /-- `closeGap`: the whitespace after the last item (in front of the closing token / the end of the
     file) -/
 def Items.wf : Items → Mode → Text → Bool
@@ -296,6 +304,9 @@ def Cst.modelled : Cst → Bool
     gcOk c1 g1 && isGap g1 && h.modelled && gcOk c2 g2 && isGap g2 && gcOk c3 g3 && isGap g3 && b.modelled
   | .sel e c1 g1 gd attrs =>
     e.modelled && gcOk c1 g1 && isGap g1 && isGap gd && !attrs.isEmpty && attrs.all attrSegOk
+  | .selOr e c1 g1 gd attrs c2 g2 g3 d =>
+    e.modelled && gcOk c1 g1 && isGap g1 && isGap gd && !attrs.isEmpty && attrs.all attrSegOk && gcOk c2 g2 &&
+      isGap g2 && isGap g3 && d.modelled
 def Items.modelled : Items → Mode → Text → Bool
   | .nil, _, _ => true
   | .cmt g t rest, m, cg =>
